@@ -17,9 +17,10 @@ Atom(a) == CASE a = "int" -> IntAtom [] a = "str" -> StrAtom [] a = "flt" -> Flt
              [] a = "arr2i" -> ArrAtom(<<2>>, "i") [] a = "arr23" -> ArrAtom(<<2, 3>>, "f")
 Atoms == {Atom(a) : a \in AtomSet}
 KeysFor(n) == IF n = 0 THEN << >> ELSE IF n = 1 THEN <<"k1">> ELSE IF n = 2 THEN <<"k1", "k2">> ELSE <<"k1", "k2", "k3">>
-MkNode(k, cs) == Node(k, cs, IF k = "dict" THEN KeysFor(Len(cs)) ELSE << >>)
+MkNode(k, cs) == IF k = "acust" THEN [k |-> "acust", c |-> cs, keys |-> << >>, shape |-> <<2>>, dt |-> "f"]
+                 ELSE Node(k, cs, IF k = "dict" THEN KeysFor(Len(cs)) ELSE << >>)
 \* a namedtuple has exactly two fields, a custom node one or two children
-ArityOK(k, n) == CASE k = "nt" -> n = 2 [] k = "cust" -> n \in {1, 2} [] OTHER -> TRUE
+ArityOK(k, n) == CASE k = "nt" -> n = 2 [] k = "cust" -> n \in {1, 2} [] k = "acust" -> n = 1 [] OTHER -> TRUE
 RECURSIVE Trees(_)
 Trees(d) == IF d = 0 THEN Atoms \cup {NoneNode}
             ELSE LET sub == Trees(d - 1) IN
@@ -41,6 +42,8 @@ ArrAi == <<"arr", <<T1(<< >>, "ident", "a")>>, "i">>
 ArrQ  == <<"arr", <<T1(<<"?">>, "ident", "a")>>, "f">>
 ArrQV == <<"arr", <<T1(<<"*", "?">>, "ident", "v")>>, "f">>
 ArrBQV == <<"arr", <<T1(<<"#", "*", "?">>, "ident", "v")>>, "f">>
+ArrAnyA == <<"arr", <<T1(<< >>, "ident", "a")>>, "f", "any">>
+ArrAnyV == <<"arr", <<T1(<<"*">>, "ident", "v")>>, "s", "any">>
 ArrAny == <<"arr", <<T1(<< >>, "dots", "")>>, "s">>
 LeafCatalogue ==
   [int |-> <<"int">>, str |-> <<"str">>, tup2 |-> <<"tup2">>, any |-> <<"any">>,
@@ -51,6 +54,7 @@ LeafCatalogue ==
    ptA |-> <<"pt", ArrA>>, ptI |-> <<"pt", <<"int">>>>, ptptA |-> <<"pt", <<"pt", ArrA>>>>,
    arrQ |-> ArrQ, arrQV |-> ArrQV, uQ |-> <<"union", ArrQ, <<"int">>>>, tupQ |-> <<"tupA", ArrQ>>,
    ptQ |-> <<"pt", ArrQ>>, arrAny |-> ArrAny, arrBQV |-> ArrBQV,
+   arrAnyA |-> ArrAnyA, arrAnyV |-> ArrAnyV, ptAnyA |-> <<"pt", ArrAnyA>>, uAnyAi |-> <<"union", ArrAnyA, <<"int">>>>,
    ptSQ |-> <<"ptS", ArrQ, SName0("U")>>, ptSA |-> <<"ptS", ArrA, SName0("U")>>,
    arrQa |-> <<"arr", <<T1(<<"?">>, "ident", "a"), T1(<< >>, "ident", "a")>>, "f">>,
    arraQ |-> <<"arr", <<T1(<< >>, "ident", "a"), T1(<<"?">>, "ident", "a")>>, "f">>]
